@@ -1177,6 +1177,41 @@ class Discharger:
 
             if stores and all(built(m.ast.value) for m in stores) and any(cfg.dominates(m, node) and m is not node for m in stores):
                 return f"`{bs}` was assigned a constructor result earlier in this function"
+            # ... or by a private helper called earlier on every path, which stores a constructor result in it on all of its
+            # normal paths (`self._line__store(kind, text)`)
+            if not stores and f.cls is not None and src(n.value.value) == "self":
+                attr = n.value.attr
+                for m in cfg.live:
+                    if m.kind == "stmt" and m.ast is not None and m is not node and cfg.dominates(m, node):
+                        for c in ast.walk(m.ast):
+                            if isinstance(c, ast.Call) and isinstance(c.func, ast.Attribute) and src(c.func.value) == "self" and c.func.attr.startswith("_"):
+                                hm = f.cls.lookup_method(c.func.attr)
+                                if hm is None:
+                                    continue
+                                from .c17 import _must_assign
+
+                                if attr not in _must_assign(self.ctx, hm, f.cls, {}):
+                                    continue
+                                henv = {}
+                                for y in own_nodes(hm.node):
+                                    if isinstance(y, (ast.Assign, ast.AnnAssign)) and getattr(y, "value", None) is not None:
+                                        t0 = y.targets[0] if isinstance(y, ast.Assign) else y.target
+                                        if isinstance(t0, ast.Name):
+                                            henv.setdefault(t0.id, []).append(y.value)
+                                vals = []
+                                for y in own_nodes(hm.node):
+                                    if isinstance(y, ast.Assign):
+                                        for t0 in y.targets:
+                                            if isinstance(t0, (ast.Tuple, ast.List)) and isinstance(y.value, (ast.Tuple, ast.List)) and len(t0.elts) == len(y.value.elts):
+                                                vals += [v_ for e_, v_ in zip(t0.elts, y.value.elts) if src(e_) == f"self.{attr}"]
+                                            elif src(t0) == f"self.{attr}":
+                                                vals.append(y.value)
+                                def hbuilt(v: ast.AST) -> bool:
+                                    if isinstance(v, ast.Call):
+                                        return True
+                                    return isinstance(v, ast.Name) and v.id not in hm.params and len(henv.get(v.id, [])) == 1 and isinstance(henv[v.id][0], ast.Call)
+                                if vals and all(hbuilt(v) for v in vals):
+                                    return f"`{bs}` is assigned a constructor result by {hm.qualname}, called earlier on every path"
         # raise-guard: `if not isinstance(x, T): raise` dominating
         if node is not None:
             conds = [c for c in cfg.live if c.kind == "cond" and (src(c.ast).startswith(f"isinstance({bs}, ") or src(c.ast) == bs)]
